@@ -58,6 +58,91 @@ Ltac upd_cases :=
            lazymatch j with context [upd _ _ _ _] => fail | _ => upd_split g i x j end
          end.
 
+Ltac live t :=
+  match goal with
+  | Hwf : forall t, ntasks ?s <= t -> tasks ?s t = dtask, Hpc : t_pc (tasks ?s t) = _ |- _ =>
+    assert (t < ntasks s) by (apply (live_lt s t Hwf); rewrite Hpc; reflexivity)
+  end.
+
+Ltac holds_from_pc :=
+  repeat match goal with
+         | Hm : (forall t, must_hold (t_pc (tasks ?s t)) = true -> _), Hpc : t_pc (tasks ?s ?t) = _ |- _ =>
+           lazymatch goal with
+           | _ : t_holds (tasks s t) = true |- _ => fail
+           | _ => idtac
+           end;
+           assert (t_holds (tasks s t) = true) by (apply Hm; rewrite Hpc; reflexivity)
+         end.
+
+Ltac perm_tac :=
+  match goal with
+  | |- context [holders (mkState (upd (tasks ?s) ?t ?x) (ntasks ?s) ?a ?b ?c ?d ?e ?f)] =>
+    let HH := fresh "HH" in
+    pose proof (holders_upd s (tasks s) t x a b c d e f eq_refl ltac:(assumption)) as HH;
+    cbn [set_pc set_pc_holds t_holds] in HH; unfold b2n in HH;
+    repeat match goal with
+           | |- context [if t_holds ?y then _ else _] => destruct (t_holds y) eqn:?
+           | H : context [if t_holds ?y then _ else _] |- _ => destruct (t_holds y) eqn:?
+           end;
+    try congruence; try lia
+  end.
+
+Ltac fsimp := repeat (rewrite ?cf_parent, ?cf_anc, ?cf_kind, ?cf_all, ?cf_items, ?cf_pc in * ).
+Ltac step_cases l Hs :=
+  destruct l; inv_step Hs; unfold finish, with_tasks in *;
+  cbn [tasks ntasks free frames nframes tracker failed top_cancelled] in *.
+Ltac flive_all :=
+  repeat match goal with
+         | Hw : I_wff ?s, Hp : f_pc (frames ?s ?f) = _ |- _ =>
+           lazymatch goal with
+           | _ : f < nframes s |- _ => fail
+           | _ => idtac
+           end;
+           assert (f < nframes s) by (apply (flive s f Hw); rewrite Hp; reflexivity)
+         end.
+
+Ltac pc_rewrite :=
+  repeat match goal with
+         | H : t_pc (tasks _ ?t) = _ |- _ => first [rewrite H in * | clear H]
+         end.
+
+Ltac pre :=
+  try match goal with
+      | Hwf : (forall t, ntasks ?s <= t -> tasks ?s t = dtask), H : frame_tasks_done ?s ?f = true |- _ =>
+        pose proof (ftd_spec s f Hwf H)
+      end;
+  try match goal with
+      | Hw : I_wff ?s |- _ => assert (frames s (nframes s) = dframe) by (apply Hw; lia)
+      end;
+  repeat match goal with H : f_pc (frames _ _) = _ |- _ => rewrite H in * end.
+
+Ltac fpc_rw := repeat match goal with H : f_pc (frames _ _) = _ |- _ => rewrite H in * end.
+
+Ltac extra :=
+  try match goal with
+      | Hf : (forall t, t_frame (tasks ?s t) = _ -> is_fin _ = true), H0 : is_fin (t_pc (tasks ?s ?t)) = false |- _ =>
+        rewrite Hf in H0 by (auto; congruence); discriminate
+      end;
+  try match goal with H : frames ?s (nframes ?s) = dframe |- _ => rewrite H in * end;
+  repeat match goal with
+         | Ht : I_tframe ?s, H : t_pc (tasks ?s ?t) = _ |- _ =>
+           lazymatch goal with | _ : t_frame (tasks s t) < nframes s |- _ => fail | _ => idtac end;
+           pose proof (Ht t)
+         end.
+
+Ltac sat :=
+  repeat match goal with
+         | Hi : I_ingo ?s, H : t_pc (tasks ?s ?t) = TInGo ?f |- _ =>
+           lazymatch goal with | _ : f_parent (frames s f) = Some t |- _ => fail | _ => idtac end;
+           let A := fresh "Hig" in let B := fresh "Hig" in destruct (Hi t f H) as [A B]
+         | Hp : I_parent ?s, H : f_parent (frames ?s ?f) = Some ?p |- _ =>
+           lazymatch goal with | _ : t_frame (tasks s p) < f |- _ => fail | _ => idtac end;
+           let A := fresh "Hpa" in let B := fresh "Hpa" in let C := fresh "Hpa" in destruct (Hp f p H) as [[A C] B]
+         | Hu : I_unfin ?s, H : t_pc (tasks ?s ?t) = ?p |- _ =>
+           lazymatch goal with | _ : is_ret (f_pc (frames s (t_frame (tasks s t)))) = false |- _ => fail | _ => idtac end;
+           assert (is_ret (f_pc (frames s (t_frame (tasks s t)))) = false) by (apply Hu; rewrite H; reflexivity)
+         end.
+
 Section Proofs.
 Variable succ : nat -> list nat.
 Variable K : nat.
@@ -90,35 +175,6 @@ Proof. intros -> Hlt. unfold holders. simpl. apply (count_upto_upd t_holds). aut
 
 Lemma inv1_init : Inv1 (init K ext roots).
 Proof. constructor; simpl; intros; auto; try discriminate. Qed.
-
-Ltac live t :=
-  match goal with
-  | Hwf : forall t, ntasks ?s <= t -> tasks ?s t = dtask, Hpc : t_pc (tasks ?s t) = _ |- _ =>
-    assert (t < ntasks s) by (apply (live_lt s t Hwf); rewrite Hpc; reflexivity)
-  end.
-
-Ltac holds_from_pc :=
-  repeat match goal with
-         | Hm : (forall t, must_hold (t_pc (tasks ?s t)) = true -> _), Hpc : t_pc (tasks ?s ?t) = _ |- _ =>
-           lazymatch goal with
-           | _ : t_holds (tasks s t) = true |- _ => fail
-           | _ => idtac
-           end;
-           assert (t_holds (tasks s t) = true) by (apply Hm; rewrite Hpc; reflexivity)
-         end.
-
-Ltac perm_tac :=
-  match goal with
-  | |- context [holders (mkState (upd (tasks ?s) ?t ?x) (ntasks ?s) ?a ?b ?c ?d ?e ?f)] =>
-    let HH := fresh "HH" in
-    pose proof (holders_upd s (tasks s) t x a b c d e f eq_refl ltac:(assumption)) as HH;
-    cbn [set_pc set_pc_holds t_holds] in HH; unfold b2n in HH;
-    repeat match goal with
-           | |- context [if t_holds ?y then _ else _] => destruct (t_holds y) eqn:?
-           | H : context [if t_holds ?y then _ else _] |- _ => destruct (t_holds y) eqn:?
-           end;
-    try congruence; try lia
-  end.
 
 Lemma inv1_step s l s' : Inv1 s -> step succ s l = Some s' -> Inv1 s'.
 Proof.
@@ -249,20 +305,6 @@ Proof.
   intros Hw Hp. destruct (Nat.lt_ge_cases f (nframes s)); auto. rewrite Hw in Hp by auto. discriminate.
 Qed.
 
-Ltac fsimp := repeat (rewrite ?cf_parent, ?cf_anc, ?cf_kind, ?cf_all, ?cf_items, ?cf_pc in * ).
-Ltac step_cases l Hs :=
-  destruct l; inv_step Hs; unfold finish, with_tasks in *;
-  cbn [tasks ntasks free frames nframes tracker failed top_cancelled] in *.
-Ltac flive_all :=
-  repeat match goal with
-         | Hw : I_wff ?s, Hp : f_pc (frames ?s ?f) = _ |- _ =>
-           lazymatch goal with
-           | _ : f < nframes s |- _ => fail
-           | _ => idtac
-           end;
-           assert (f < nframes s) by (apply (flive s f Hw); rewrite Hp; reflexivity)
-         end.
-
 Lemma inv2_init : Inv2 (init K ext roots).
 Proof.
   constructor; red; cbn; intros; unfold upd in *;
@@ -283,11 +325,6 @@ Proof.
                    cbn; try lia; match goal with |- context [t_frame (tasks _ ?x)] => specialize (Htf x); lia end ].
 Qed.
 
-Ltac pc_rewrite :=
-  repeat match goal with
-         | H : t_pc (tasks _ ?t) = _ |- _ => first [rewrite H in * | clear H]
-         end.
-
 Lemma ftd_spec s f : (forall t, ntasks s <= t -> tasks s t = dtask) -> frame_tasks_done s f = true ->
   forall t, t_frame (tasks s t) = f -> is_fin (t_pc (tasks s t)) = true.
 Proof.
@@ -296,43 +333,6 @@ Proof.
     rewrite Ht, Nat.eqb_refl in H. apply H. apply in_seq. lia.
   - rewrite Hwf by auto. reflexivity.
 Qed.
-
-Ltac pre :=
-  try match goal with
-      | Hwf : (forall t, ntasks ?s <= t -> tasks ?s t = dtask), H : frame_tasks_done ?s ?f = true |- _ =>
-        pose proof (ftd_spec s f Hwf H)
-      end;
-  try match goal with
-      | Hw : I_wff ?s |- _ => assert (frames s (nframes s) = dframe) by (apply Hw; lia)
-      end;
-  repeat match goal with H : f_pc (frames _ _) = _ |- _ => rewrite H in * end.
-
-Ltac fpc_rw := repeat match goal with H : f_pc (frames _ _) = _ |- _ => rewrite H in * end.
-
-Ltac extra :=
-  try match goal with
-      | Hf : (forall t, t_frame (tasks ?s t) = _ -> is_fin _ = true), H0 : is_fin (t_pc (tasks ?s ?t)) = false |- _ =>
-        rewrite Hf in H0 by (auto; congruence); discriminate
-      end;
-  try match goal with H : frames ?s (nframes ?s) = dframe |- _ => rewrite H in * end;
-  repeat match goal with
-         | Ht : I_tframe ?s, H : t_pc (tasks ?s ?t) = _ |- _ =>
-           lazymatch goal with | _ : t_frame (tasks s t) < nframes s |- _ => fail | _ => idtac end;
-           pose proof (Ht t)
-         end.
-
-Ltac sat :=
-  repeat match goal with
-         | Hi : I_ingo ?s, H : t_pc (tasks ?s ?t) = TInGo ?f |- _ =>
-           lazymatch goal with | _ : f_parent (frames s f) = Some t |- _ => fail | _ => idtac end;
-           let A := fresh "Hig" in let B := fresh "Hig" in destruct (Hi t f H) as [A B]
-         | Hp : I_parent ?s, H : f_parent (frames ?s ?f) = Some ?p |- _ =>
-           lazymatch goal with | _ : t_frame (tasks s p) < f |- _ => fail | _ => idtac end;
-           let A := fresh "Hpa" in let B := fresh "Hpa" in let C := fresh "Hpa" in destruct (Hp f p H) as [[A C] B]
-         | Hu : I_unfin ?s, H : t_pc (tasks ?s ?t) = ?p |- _ =>
-           lazymatch goal with | _ : is_ret (f_pc (frames s (t_frame (tasks s t)))) = false |- _ => fail | _ => idtac end;
-           assert (is_ret (f_pc (frames s (t_frame (tasks s t)))) = false) by (apply Hu; rewrite H; reflexivity)
-         end.
 
 Lemma inv2_struct s l s' : Inv1 s -> Inv2 s -> step succ s l = Some s' ->
   I_unfin s' /\ I_ingo s' /\ I_parent s' /\ I_top s'.
@@ -353,5 +353,6 @@ Proof.
        unfold wait_pc in *; repeat match goal with H : context [match ?x with _ => _ end] |- _ => destruct x eqn:? end;
        intuition (try congruence; try lia; eauto) ]).
 Qed.
+
 
 End Proofs.
